@@ -1007,8 +1007,65 @@ Theorem configure_rule_last ds r sa :
   fl_configure ds ++
   [fl_set_acts r (fl_resolve_acts
      (fl_find_default (fold_left (fun d x => match x with DDefault p da => d ++ [(p, da)] | _ => d end) ds [])
-                      (r_phase r)) sa)].
+                      (r_phase r)) (fl_collapse sa))].
 Proof. unfold fl_configure. rewrite configure_from_app. reflexivity. Qed.
+
+(* ---- several disruptive actions in one action list ---- *)
+
+Definition not_dis (y : fl_sact) : bool := negb (fl_sact_is_dis y).
+
+Lemma filter_not_dis_idem t : filter not_dis (filter (fun y => negb (fl_sact_is_dis y)) t) = filter not_dis t.
+Proof.
+  induction t as [|y t IH]; [reflexivity|]. cbn [filter]. fold (not_dis y).
+  destruct (not_dis y) eqn:Y; cbn [filter]; rewrite ?Y, IH; reflexivity.
+Qed.
+
+Lemma filter_dis_not_dis t : filter fl_sact_is_dis (filter (fun y => negb (fl_sact_is_dis y)) t) = [].
+Proof.
+  induction t as [|y t IH]; [reflexivity|]. cbn [filter].
+  destruct (fl_sact_is_dis y) eqn:Y; cbn [negb filter]; rewrite ?Y; exact IH.
+Qed.
+
+Lemma place_dis_spec d src : fl_sact_is_dis d = true -> existsb fl_sact_is_dis src = true ->
+  filter not_dis (fl_place_dis d src) = filter not_dis src /\
+  filter fl_sact_is_dis (fl_place_dis d src) = [d].
+Proof.
+  intros HD. assert (ND : not_dis d = false) by (unfold not_dis; rewrite HD; reflexivity).
+  induction src as [|x t IH]; intro E; [discriminate|].
+  cbn [fl_place_dis]. destruct (fl_sact_is_dis x) eqn:X.
+  - assert (NX : not_dis x = false) by (unfold not_dis; rewrite X; reflexivity).
+    cbn [filter]. rewrite ND, NX, HD, filter_not_dis_idem, filter_dis_not_dis. split; reflexivity.
+  - assert (NX : not_dis x = true) by (unfold not_dis; rewrite X; reflexivity).
+    cbn [existsb] in E. rewrite X in E. cbn [orb] in E. destruct (IH E) as [A B].
+    cbn [filter]. rewrite NX, X, A, B. split; reflexivity.
+Qed.
+
+Lemma last_dis_some src d : fl_last_dis src = Some d -> fl_sact_is_dis d = true /\ existsb fl_sact_is_dis src = true.
+Proof.
+  revert d. induction src as [|x t IH]; intros d H; [discriminate|].
+  cbn [fl_last_dis existsb] in *. destruct (fl_last_dis t) as [d'|].
+  - injection H as <-. destruct (IH d' eq_refl) as [A B]. rewrite B, orb_true_r. split; [exact A | reflexivity].
+  - destruct (fl_sact_is_dis x) eqn:X; [|discriminate]. injection H as <-. split; [exact X | reflexivity].
+Qed.
+
+(* the compiled list keeps every non-disruptive action in order and exactly one disruptive action: the
+   LAST one written, with its own parameter (allow:phase stays allow:phase) *)
+Theorem collapse_spec src :
+  filter not_dis (fl_collapse src) = filter not_dis src /\
+  filter fl_sact_is_dis (fl_collapse src) = match fl_last_dis src with Some d => [d] | None => [] end.
+Proof.
+  unfold fl_collapse. destruct (fl_last_dis src) as [d|] eqn:L.
+  - destruct (last_dis_some src d L) as [A B]. apply place_dis_spec; assumption.
+  - split; [reflexivity|]. induction src as [|x t IH]; [reflexivity|].
+    cbn [fl_last_dis] in L. destruct (fl_last_dis t); [discriminate|].
+    destruct (fl_sact_is_dis x) eqn:X; [discriminate|]. cbn [filter]. rewrite X. apply IH. reflexivity.
+Qed.
+
+Example collapse_keeps_parameter :
+  fl_collapse [SPass; SA (ASkip 2); SA (AAllow ScPhase)] = [SA (AAllow ScPhase); SA (ASkip 2)]
+  /\ fl_collapse [SA ADeny; SA (AAllow ScRequest)] = [SA (AAllow ScRequest)]
+  /\ fl_collapse [SA ADeny; SA (ASkipAfter 1); SBlock] = [SBlock; SA (ASkipAfter 1)].
+Proof. repeat split. Qed.
 
 (* ---- a removed rule is as good as absent ---- *)
 
